@@ -488,6 +488,10 @@ func runC06(c *eng.Ctx) {
 	}
 	c.Floor(8)
 
+	c.Rule("R07.9", "K2")
+	ruleISRPersisted(c)
+	c.Floor(2)
+
 	// ---- R06.5 idempotency / epoch stamping
 	c.Rule("R06.5", "K1")
 	if fn := c.Fn("server.(*metadataAPI).ChangeGroupCoordinator"); fn != nil {
